@@ -99,6 +99,9 @@ def main(tier=None):
     # 3. writer level: message ids of PUBLISH packets written by the real writer over a tiny pool
     from checks import writerlib
     writerlib.add_pool_suites(c, samples)
+    # an identifier stays taken while its delivery is being retransmitted (whole broker, production pool)
+    from checks import brokerlib
+    brokerlib.run_scenarios(c, "identifier-in-use-while-retransmitted", brokerlib.corpus(rng, ["retransmit-then-next", "fanout-unacked-retransmit", "slow-qos2"]), samples)
     # an identifier comes back when its exchange is acknowledged or expires: the real in-flight queue under real deadlines
     from checks import c04
     c04.add_queue_suites(c, samples, exhaustive_n=2, n_random=600 if c.tier == "quick" else 10000)
